@@ -11,6 +11,12 @@ ENGINES = [
     {"name": "towersim (E1)", "path": "harness/src/{e1,model,world,tower,chain,node,snap}.rs", "serves_properties": ["C01", "C02", "C03", "C04", "C06", "C07", "C08", "C09", "C11", "C12"],
      "kind_free_text": "the real tower components in one process against a simulated chain and node; a sequential reference model (TowerModel) and "
                        "per-property monitors compare replies, sqlite rows, private-API answers and the node RPC log after every step"},
+    {"name": "teosd-e2e (E3)", "path": "harness/src/{remote,e3,e3c,e3o,e3cfg}.rs (+ Mode::Real in e2.rs)", "serves_properties": ["C01", "C02", "C03", "C04", "C06", "C07", "C08", "C09", "C10", "C11", "C12", "C20"],
+     "kind_free_text": "the real teosd binary (verif build) started by its own main.rs against a fake bitcoind speaking JSON-RPC over TCP (backed by the same SimChain/SimNode, "
+                       "polls held until the driver grants them); user requests over the HTTP API / internal gRPC, operator requests over the mTLS gRPC API, sqlite read by a second "
+                       "connection; E1's generator + TowerModel + monitors run unchanged on it (e3); real-process crash enumeration by abort-at-hook-point and SIGKILL-at-bitcoind-request "
+                       "(e3c); real-time outages by dropped connections (e3o); what the process does with a configuration file + command line (e3cfg); unscheduled concurrent "
+                       "executions of the C10/C11 scenarios (e2 real mode); a few histories under valgrind memcheck"},
     {"name": "pure (E6)", "path": "harness/src/pure_*.rs", "serves_properties": ["C17", "C18", "C19", "C20", "C07"],
      "kind_free_text": "direct calls into the real library code with an independent reference oracle, seeded generators, per-case monitors"},
 ]
@@ -20,10 +26,10 @@ NOTES = ("Runtime monitoring family: every check runs the real rust-teos code (p
 
 def _e1meta(ref, text):
     return {
-        "engine": "towersim (E1)", "level": "exploration", "design_ref": ref,
+        "engine": "towersim (E1) + teosd-e2e (E3)", "level": "exploration", "design_ref": ref,
         "technique": "runtime monitoring: reference-model oracle + offline checker over the recorded RPC/event log, evaluated after every step of seeded hostile histories",
         "text": text + " Held on every history executed in the run (thousands per run, each with tens to hundreds of checked steps); sampled histories, nothing is proved.",
-        "note": "Simulated chain/node at the tower's real boundaries; sequential histories; in-process bootstrap mirrors main.rs; model written from the statements (DESIGN.md appendix A).",
+        "note": "Simulated chain/node at the tower's real boundaries; sequential histories; the in-process bootstrap mirrors main.rs, the same histories (fewer) run against the real teosd binary; model written from the statements (DESIGN.md appendix A).",
     }
 
 
@@ -54,27 +60,27 @@ META = {
     "C08": _e1meta("DESIGN.md §4 C08", "Every receipt is verified with the client-side verifier from exactly the returned fields; stored rows and read-backs are compared byte for byte with the last accepted version."),
     "C09": _e1meta("DESIGN.md §4 C09", "Expiry errors, renewals and purges are checked at exactly the promised heights over small (slots, duration, grace) grids, multi-block polls and reorgs."),
     "C03": {
-        "engine": "towersim (E1) + crash enumerator (e1c)", "level": "fault_enumeration", "design_ref": "DESIGN.md §4 C03",
+        "engine": "towersim (E1) + crash enumerator (e1c) + real-process crash enumerator (e3c)", "level": "fault_enumeration", "design_ref": "DESIGN.md §4 C03",
         "technique": "fault injection at hooked crash points (every durable write / commit / node RPC / block download) with restart, monitored by comparing the database after every later operation with the uninterrupted execution",
         "text": "For each sampled history every crash point inside an operation is enumerated (one full re-execution each), plus failed block downloads followed by a restart. "
                 "Held on all enumerated faults except two recorded known findings.",
-        "note": "Histories are sampled; within a history the crash-point enumeration is complete for points inside operations. In-process crash = unwind + drop; bootstrap mirrors main.rs.",
+        "note": "Histories are sampled; within a history the crash-point enumeration is complete for points inside operations. e1c: in-process crash = unwind + drop, bootstrap mirrors main.rs; e3c: real teosd processes aborted at their hook points / SIGKILLed at bitcoind requests and restarted by main.rs (sampled points).",
     },
     "C10": {
-        "engine": "sched (E2)", "level": "exploration", "design_ref": "DESIGN.md §4 C10, appendix B",
+        "engine": "sched (E2) + teosd-e2e (E3, unscheduled real-binary executions)", "level": "exploration", "design_ref": "DESIGN.md §4 C10, appendix B",
         "technique": "runtime monitoring under a controlled scheduler: linearizability check of recorded outcomes against executed sequential interleavings",
         "text": "Every scheduled execution's observable outcome must be a member of the set of sequential outcomes (obtained by executing the interleavings on identical "
                 "towers). Held on the schedules sampled; four reply-level anomalies are recorded as known findings.",
         "note": "PCT sampling at lock granularity, <= 3 threads; the scheduler only sees synchronisation that goes through the hooked Mutex/Condvar.",
     },
     "C11": {
-        "engine": "sched (E2) + towersim (E1)", "level": "exploration", "design_ref": "DESIGN.md §4 C11, appendix B",
+        "engine": "sched (E2) + towersim (E1) + teosd-e2e (E3, incl. valgrind memcheck)", "level": "exploration", "design_ref": "DESIGN.md §4 C11, appendix B",
         "technique": "runtime monitoring: wait-for/stuck-state detector inside the lock observer, lock-order graph, panic hook and liveness probe over scheduled executions and sequential histories",
         "text": "A circular wait is reported only when it manifests (no enabled thread, holders/waiters listed); any panic in tower code is a violation. Held on everything executed.",
         "note": "Sampled schedules and histories; outages of bitcoind are excluded here (C12).",
     },
     "C12": {
-        "engine": "towersim (E1) + outage enumerator (e1o) + sched observer", "level": "fault_enumeration", "design_ref": "DESIGN.md §4 C12",
+        "engine": "towersim (E1) + outage enumerator (e1o) + sched observer + real-binary outages (e3o)", "level": "fault_enumeration", "design_ref": "DESIGN.md §4 C12",
         "technique": "fault injection (node outage at every RPC index, block-source failures) with the tower's calls on scheduler-observed threads; bounded-progress monitor in polls and virtual clock ticks",
         "text": "Every node RPC of each sampled history is an outage start; blocked states are observed through the lock/condvar observer rather than inferred from timeouts. Held on all enumerated faults.",
         "note": "Unbounded liveness is restated as bounded progress; histories are sampled; one outage per run.",
@@ -112,10 +118,10 @@ META = {
         "note": "Keys unique along a chain; tip-first disconnection order (what lightning-block-sync delivers).",
     },
     "C20": {
-        "engine": "pure (E6)", "level": "exploration", "design_ref": "DESIGN.md §4 C20",
-        "technique": "runtime oracle over an enumerated configuration grid (real structopt parser + from_file + patch_with_options + verify)",
-        "text": "Per-option presence grid, network x port x credential grid enumerated completely; other options random. Held on every configuration executed.",
-        "note": "Well-formed TOML and parser-accepted command lines only; E3 (real teosd start/refusal) is added in the thorough tier when available.",
+        "engine": "pure (E6) + teosd-e2e (E3, e3cfg)", "level": "exploration", "design_ref": "DESIGN.md §4 C20",
+        "technique": "runtime oracle over an enumerated configuration grid (real structopt parser + from_file + patch_with_options + verify), plus observation of what the real teosd process does with a file + command line (listening addresses, bitcoind address and credentials seen by a fake bitcoind, network directory, granted subscription terms, refusals, tower key and forced update across restarts)",
+        "text": "Per-option presence grid, network x port x credential grid enumerated completely in-process; other options random; 70 (quick) / 600 (thorough) configurations against the binary, the first 40 sweeping each of 10 options through none / file / command line / both. Held on every configuration executed.",
+        "note": "Well-formed TOML and parser-accepted command lines only; the binary-level engine needs the documented default ports free (else inconclusive).",
     },
 }
 
